@@ -432,3 +432,32 @@ func (in *Inst) QueryAll(w, n int) ([]int, error) {
 	}
 	return out, nil
 }
+
+// CSMYear builds a one-row request for bucket w on Jan 2nd of the given year (a year the bucket has no
+// file for makes the writer roll the bucket over: GetSubDirectoryAndAddFile -> AddFile).
+func CSMYear(w, year int) io.ColumnSeriesMap {
+	t := time.Date(year, time.January, 2, 0, 0, 0, 0, time.UTC)
+	cs := io.NewColumnSeries()
+	cs.AddColumn("Epoch", []int64{t.Unix()})
+	cs.AddColumn("Open", []float32{float32(year)})
+	csm := io.NewColumnSeriesMap()
+	csm.AddColumnSeries(*io.NewTimeBucketKey(Key(w)), cs)
+	return csm
+}
+
+// QueryYears queries bucket w over [from, to] (whole years) and returns the number of rows.
+func (in *Inst) QueryYears(w, from, to int) (int, error) {
+	tbk := io.NewTimeBucketKey(Key(w))
+	csm, err := in.Q.ExecuteQuery(tbk, time.Date(from, 1, 1, 0, 0, 0, 0, time.UTC), time.Date(to, 12, 31, 23, 59, 59, 0, time.UTC), 0, false, nil)
+	if err != nil {
+		if strings.Contains(err.Error(), "no files returned") {
+			return 0, nil
+		}
+		return 0, err
+	}
+	n := 0
+	for _, cs := range csm {
+		n += len(cs.GetEpoch())
+	}
+	return n, nil
+}
